@@ -24,7 +24,8 @@ Proof.
   intros dec o fs H. induction H as [|[[k m] s] fr Hx _ IH]; simpl; [reflexivity|].
   destruct (jlookup k o) as [j|].
   - apply bind_no_panic; [apply Hx|]. intros v _. apply bind_no_panic; [exact IH|]. reflexivity.
-  - destruct (is_opt m); [|reflexivity]. apply bind_no_panic; [exact IH|]. reflexivity.
+  - destruct (is_opt m); [apply bind_no_panic; [exact IH|]; reflexivity|].
+    destruct (is_omit m); [|reflexivity]. apply bind_no_panic; [exact IH|]. reflexivity.
 Qed.
 
 Lemma dec_list_np : forall dec l,
@@ -97,6 +98,63 @@ Proof.
   destruct s; try reflexivity. destruct ptr; [reflexivity|].
   destruct j; try reflexivity; apply jdecode_no_panic.
 Qed.
+
+(* ---------- the encoder does not panic either (after 9d20a03 / bb76e84) ---------- *)
+Lemma enc_fields_np : forall enc fs vs,
+  Forall (fun f : string * fmode * schema => forall v, is_panic (enc (snd f) v) = false) fs ->
+  is_panic (enc_fields enc fs vs) = false.
+Proof.
+  intros enc fs vs H. revert vs. induction H as [|[[k m] s] fr Hx _ IH]; intros vs; destruct vs as [|v vr]; try reflexivity.
+  cbn [enc_fields]. destruct ((is_omit m && is_empty s v) || (is_opt m && is_nil v)); [apply IH|].
+  apply bind_no_panic; [apply Hx|]. intros j _. apply bind_no_panic; [apply IH|]. reflexivity.
+Qed.
+
+Lemma enc_list_np : forall (enc : value -> res json) vs,
+  (forall v, is_panic (enc v) = false) -> is_panic (enc_list enc vs) = false.
+Proof.
+  intros enc vs H. induction vs as [|v r IH]; [reflexivity|]. cbn [enc_list].
+  apply bind_no_panic; [apply H|]. intros j _. apply bind_no_panic; [exact IH|]. reflexivity.
+Qed.
+
+Lemma enc_entries_np : forall (enck encv : value -> res json) kvs,
+  (forall v, is_panic (enck v) = false) -> (forall v, is_panic (encv v) = false) ->
+  is_panic (enc_entries enck encv kvs) = false.
+Proof.
+  intros enck encv kvs Hk Hv. induction kvs as [|[k v] r IH]; [reflexivity|]. cbn [enc_entries].
+  apply bind_no_panic; [apply Hk|]. intros jk _. apply bind_no_panic; [apply Hv|]. intros jv _.
+  destruct jk; try reflexivity. apply bind_no_panic; [exact IH|]. reflexivity.
+Qed.
+
+Theorem jencode_no_panic : forall s v, is_panic (jencode s v) = false.
+Proof.
+  induction s using schema_ind'; intros v; cbn [jencode].
+  1-9: destruct v; reflexivity.
+  - assert (B : forall x, is_panic (match x with
+                           | VList vs => if fields_ok fs then let* kvs := enc_fields jencode fs vs in Ok (JObj (code_entry code ++ kvs))
+                                         else Err EUnsupported
+                           | _ => Err EType end) = false).
+    { intros x. destruct x; try reflexivity. destruct (fields_ok fs); [|reflexivity].
+      apply bind_no_panic; [|reflexivity]. apply enc_fields_np. exact H. }
+    destruct ptr; [destruct v; try reflexivity|]; apply B.
+  - destruct v; try reflexivity. apply bind_no_panic; [|reflexivity]. apply enc_list_np. exact IHs.
+  - destruct v; try reflexivity. destruct (Nat.eqb (List.length l) n); [|reflexivity].
+    apply bind_no_panic; [|reflexivity]. apply enc_list_np. exact IHs.
+  - destruct v; try reflexivity. apply bind_no_panic; [|reflexivity]. apply enc_entries_np; assumption.
+  - destruct v; try reflexivity. destruct alts as [|a0 r0] eqn:Ea; [reflexivity|]. rewrite <- Ea in *.
+    apply find_alt_np. eapply Forall_impl; [|exact H]. intros a Ha. apply Ha.
+Qed.
+
+Theorem jencode_top_no_panic : forall s v, is_panic (jencode_top s v) = false.
+Proof.
+  intros s v. unfold jencode_top. apply bind_no_panic; [apply jencode_no_panic|]. intros j _. destruct j; reflexivity.
+Qed.
+
+(* regression: the two inputs on which the encoder panicked before 9d20a03 / bb76e84 *)
+Example jencode_former_panics :
+  jencode (SStruct false None [("m", FReq, SArr 1 (SMap (SNum U16) SBool))]%string)
+          (VList [VList [VMap [(VInt 1, VBool true)]]]) = Err EUnsupported /\
+  jencode (SStruct false None [("b", FReq, SU256)]%string) (VList [VNil]) = Err ENil.
+Proof. split; vm_compute; reflexivity. Qed.
 
 (* The pinned code (before 4262ca0 / 81cafca) did panic: the D02b probe inputs. *)
 Definition pinned_schema : schema :=
